@@ -262,6 +262,9 @@ class ConcE:
     def opaque(self, what, **info):
         return info.get('concrete', object())
 
+    def as_bytes(self, seq):
+        return bytes(seq)
+
     def clone(self, v, memo=None):
         return copy.deepcopy(v)
 
